@@ -1,5 +1,5 @@
 """C08 - any sequence of updates keeps files, config and tags in agreement."""
-from campaigns.reallife import RealLife
+from campaigns.reallife import RealLife, BranchLife
 
 PROPERTY = "C08"
 LEVEL = "exploration"
@@ -11,11 +11,11 @@ RULE = ("REALLIFE: real git repositories with a bare origin. Histories of 1..12 
         "one tag on that commit which is the newest matching tag, strictly greater than the start version; failing "
         "invocations leave files, HEAD and tags untouched; at the end one further update must succeed (bounded progress). "
         "distinct_nontrivial = distinct (pattern parts, flags, VCS flags, off-main, syntax) of successful updates.")
-ASSUMPTIONS = ["default tag scope only (scopes are C09's subject)", "git only; identity, dates and configuration pinned so that hashes replay",
+ASSUMPTIONS = ["REALLIFE: default tag scope only (scopes are C09's subject); BRANCHLIFE: tag scope branch on a release + maintenance-branch history", "git only; identity, dates and configuration pinned so that hashes replay",
                "week-53 days are steered around (known finding F8)"]
 COMPONENTS = {"bumpver cli update/show, vcs, rewrite, config": "real", "git": "real git 2.39 + bare origin",
               "files": "real scratch repository", "clock": "simulated (also drives GIT_*_DATE)"}
-CAMPAIGNS = [RealLife("C08", quick=420, thorough=12000)]
+CAMPAIGNS = [RealLife("C08", quick=420, thorough=12000), BranchLife("C08", quick=120, thorough=3000)]
 
 
 def sanity_gate(tier, total):
